@@ -952,7 +952,8 @@ impl BufferParser for Parser {
                         self.state = EngineState::Default;
 
                         if let Some(number) = self.parsed_numbers.first() {
-                            for _ in 0..*number {
+                            // every insert pushes the rest of the row one column to the right: after a screen width it is all off-screen
+                            for _ in 0..(*number).min(buf.terminal_state.get_width()) {
                                 caret.ins(buf, current_layer);
                             }
                         } else {
@@ -1038,7 +1039,8 @@ impl BufferParser for Parser {
                                 ).into());
                             }
                             if let Some(number) = self.parsed_numbers.first() {
-                                for _ in 0..*number {
+                                let line_len = buf.layers[current_layer].lines.get(caret.pos.y as usize).map_or(0, |l| l.chars.len() as i32);
+                                for _ in 0..(*number).min(line_len) {
                                     caret.del(buf,current_layer);
                                 }
                             } else {
@@ -1062,7 +1064,7 @@ impl BufferParser for Parser {
                                 ).into());
                             }
                             if let Some(number) = self.parsed_numbers.first() {
-                                for _ in 0..*number {
+                                for _ in 0..(*number).min(buf.terminal_state.get_height()) {
                                     buf.insert_terminal_line(current_layer,caret.pos.y);
                                 }
                             } else {
